@@ -10,10 +10,67 @@ RULE = ("every well-formed 1-D/2-D/3-D index state in scope (built directly, not
         "in scope (DESIGN §4.3); a case is non-trivial when the state has at least one row; distinct by construction (enumeration without repetition)")
 
 
+def proved_part(prop):
+    """Engine A: per-key obligations of union/intersection/difference_update and set_if on the real ASTs,
+    with the kernel wrappers entering by their proved contracts (C08).  Returns (results, stale)."""
+    import ast
+
+    from .. import env
+    from ..kvc import discharge, updexec as U
+    from contracts import kernels as K
+
+    tree = ast.parse(env.read_source("iindexes.py"))
+    obls, stale = [], []
+    try:
+        obls += U.verify_set_if(U.find_method(tree, "set_if"))
+    except U.Unsupported as e:
+        stale.append(("iindex.set_if", str(e)))
+    for name, kind in (("union_update", "union"), ("intersection_update", "intersection"), ("difference_update", "difference")):
+        try:
+            obls += U.verify_update(U.find_method(tree, name), kind, K.WRAPPERS)
+        except U.Unsupported as e:
+            stale.append(("iindex." + name, str(e)))
+    mine_c07 = lambda n: "post-entry-strictly-increasing" in n or "post-no-empty-entry" in n  # noqa
+    if prop == "C07":
+        obls = [o for o in obls if o.kind == "canary" or mine_c07(o.name)]
+    elif prop == "C06":
+        obls = [o for o in obls if not mine_c07(o.name)]
+    else:
+        obls = []
+    return (discharge.discharge(obls) if obls else []), stale
+
+
 def run(ctx, prop=PROP):
+    from .. import core
+
+    results, stale = proved_part(prop)
     mon, totals = runner.run_sharded(drive_iindex.work, ctx.tier)
+    real = [r for r in results if r.kind != "canary"]
+    failed = [r for r in real if not r.discharged]
+    for r in failed:
+        method = r.name.split("/")[0].rsplit(".", 1)[-1]
+        witness = [f for f in mon.failures if (".%s/" % method) in f.obligation or (method == "set_if" and "_update/" in f.obligation)]
+        if witness:
+            f = witness[0]
+            ctx.violation(core.Violation(prop, r.name, "obligation generated from the current source is not discharged (%s); the bounded run of the real "
+                                         "code fails %s: %s" % (r.verdict, f.obligation, f.what), input=f.input, cls=f.cls))
+        else:
+            ctx.violation(core.Violation(prop, r.name, "obligation generated from the current source is not discharged (%s by %s); the bounded run found no failing input"
+                                         % (r.verdict, r.backend), input=None, cls={"method": method},
+                                         solver={"verdict": r.verdict, "backend": r.backend, "detail": r.detail, "model": r.model}, no_input=True))
+    bad_canaries = [r for r in results if r.kind == "canary" and not r.discharged]
+    if bad_canaries and not failed:
+        raise core.CheckerBroken("vacuity: `False` provable at %s" % bad_canaries[0].name)
     runner.report(ctx, mon, totals, lambda ob: contracts_iindex.property_of(ob) == prop, RULE,
                   expect_clauses=EXPECT[prop])
+    if prop in ("C06", "C07"):
+        ctx.coverage["proved_subobligations"] = {
+            "what": "per-key obligations of union_update / intersection_update / difference_update / set_if generated from the real ASTs; "
+                    "union/intersection/difference enter by their contracts proved under C08; dict-iteration rule assumed",
+            "obligations": len(real), "discharged": len(real) - len(failed), "proof_stale": stale,
+            "solver_s": round(sum(r.seconds for r in results), 2),
+            "samples": [{"obligation": r.name, "verdict": r.verdict, "backend": r.backend} for r in real[:6]],
+        }
     ctx.assumptions += ["bounded: holds on the enumerated state/argument scope only (engine C is the bounded stand-in, not a proof)",
                         "histories: by induction over per-operation contracts whose only precondition on the receiver is wf"]
 
